@@ -100,6 +100,15 @@ def tls_settings(case, s):
               macNames=[s.mac_setting])
     if not s.tls13:
         kw["keyExchangeNames"] = [s.kx_setting]
+    if case.get("tls_max") and tuple(case["tls_max"]) > v:
+        # tlslite would go higher, OpenSSL is capped: negotiated downwards
+        kw["maxVersion"] = tuple(case["tls_max"])
+        if kw["maxVersion"] == (3, 4):
+            kw["cipherNames"] = [s.cipher_setting, "aes128gcm"]
+            kw["macNames"] = [s.mac_setting, "aead"]
+    if case.get("rsl"):
+        # OpenSSL 3.0 neither sends nor answers record_size_limit
+        kw["record_size_limit"] = case["rsl"]
     if case.get("curve"):
         kw["eccCurves"] = [case["curve"]]
         kw["keyShares"] = [case["curve"]] if v == (3, 4) else []
@@ -146,7 +155,11 @@ def ossl_ctx(role, case, s, fwd, for_ossl_pair=False):
 
 
 def tls_opts(role, case, s):
-    st_ = sc.mk_settings(**tls_settings(case, s))
+    cs = case
+    if role != case["role"]:
+        # the loopback stand-in for OpenSSL: capped, no record_size_limit
+        cs = {k: x for k, x in case.items() if k not in ("tls_max", "rsl")}
+    st_ = sc.mk_settings(**tls_settings(cs, s))
     if role == "c":
         o = {"settings": st_}
         if case.get("client_auth"):
@@ -475,6 +488,10 @@ def cases(draw, tier):
         c["alpn_s"] = draw(st.lists(st.sampled_from(names), min_size=1,
                                     max_size=3, unique=True))
     c["resume"] = draw(st.booleans())
+    if not s.tls13 and draw(st.booleans()):
+        c["tls_max"] = draw(st.sampled_from([[3, 3], [3, 4]]))
+    if draw(st.integers(0, 2)) == 0:
+        c["rsl"] = draw(st.sampled_from([64, 1500, 4096, 16384]))
     return c
 
 
@@ -506,6 +523,27 @@ def explicit(tier, seed):
         yield {"role": "c", "suite": sid, "ver": list(v), "key": key,
                "sizes": [100, 3000], "client_auth": False, "resume": False,
                "lead0": True}
+    # tlslite willing to go higher than the version OpenSSL is capped at,
+    # and tlslite with a record_size_limit OpenSSL never acknowledges
+    seen = set()
+    for sid, v, key in m:
+        s = iana.SUITES[sid]
+        tag = (v, s.kind, s.kx if not s.tls13 else "13")
+        if tag in seen:
+            continue
+        seen.add(tag)
+        for role in "cs":
+            if not s.tls13:
+                for tm in ([3, 3], [3, 4]):
+                    if tuple(tm) > tuple(v):
+                        yield {"role": role, "suite": sid, "ver": list(v),
+                               "key": key, "sizes": [100, 3000],
+                               "client_auth": False, "resume": False,
+                               "tls_max": tm}
+            yield {"role": role, "suite": sid, "ver": list(v), "key": key,
+                   "sizes": [40000, 40000], "client_auth": False,
+                   "resume": False, "rsl": (1500, 4096, 16384, 64)[
+                       len(seen) % 4]}
     # client authentication and HelloRetryRequest, per version and role
     seen = set()
     for sid, v, key in m:
